@@ -26,6 +26,7 @@ import os
 
 import lightmotif
 import vxref
+import vxpy
 from vxpy import call, f32, bfs
 
 DNA = "ACTGN"
@@ -198,6 +199,7 @@ class Obj:
         self.view_rel = 0
         self.key = None           # canonical key (BFS spaces)
         self.category = "fresh"
+        self.free = frozenset()   # view cells that stand for no logical element (value not checked)
         self.desc = ""
 
 
@@ -275,8 +277,9 @@ def build(spec):
         o.length, o.elements = n, allsc[:n]
         o.buffer, o.alloc = True, Rs * COLS * 4
         o.layouts = [((COLS, Rs), {(c, r): allsc[c * Rs + r] for c in range(COLS) for r in range(Rs)})]
-        o.n_logical = n
-        o.rows = Rs
+        # cells of positions >= len stand for no logical element: the statement defines no value for them, so they
+        # only have to lie inside the object (how many equal the wildcard-padded window score is reported in a note)
+        o.free = {(c, r) for c in range(COLS) for r in range(Rs) if c * Rs + r >= n}
         o.desc = "score at (column c, row r) = position c*%d + r, %d scores, shape (32, %d)" % (Rs, n, Rs)
         return o
     M = int(spec["M"])
@@ -459,7 +462,11 @@ def check_view(rep, spec, o, notes=None):
             elif shape != want_shape:
                 ok, bad = False, None
             else:
-                bad = [idx for idx in sorted(exp) if cells.get(idx, OUTSIDE) is OUTSIDE or not same(cells[idx], exp[idx], rel)]
+                bad = [idx for idx in sorted(exp) if cells.get(idx, OUTSIDE) is OUTSIDE
+                       or (idx not in o.free and not same(cells[idx], exp[idx], rel))]
+                if o.free and notes is not None:
+                    notes.append({"free": len(o.free), "free_differ": sum(
+                        1 for idx in o.free if cells.get(idx, OUTSIDE) is not OUTSIDE and not same(cells[idx], exp[idx], rel))})
                 ok = not bad and len(cells) == len(exp)
             verdicts.append((ok, want_shape, bad))
         if any(ok for ok, _, _ in verdicts):
@@ -491,8 +498,6 @@ def check_view(rep, spec, o, notes=None):
             if shape == (K, M) and tuple(v.strides) == (rs * isz, isz):
                 sig = "shape transposed"
                 detail = " - shape is (columns=%d, rows=%d) but the strides are those of the row-major (rows, columns) matrix with row stride %d" % (K, M, rs)
-        if o.cls == "StripedScores" and idx[0] * o.rows + idx[1] >= o.n_logical:
-            sig = "cell past len not the score of the wildcard-padded window"
         if n_out:
             detail += "; %d of %d exposed cells lie outside the object's memory (not read)" % (n_out, total)
         rep.violation("C18 %s buffer %s" % (o.cls, sig),
@@ -513,7 +518,8 @@ INDEX_DESC = ("complete product: every class with __getitem__/__len__ (EncodedSe
               "state = one object, transition = one call.")
 VIEW_DESC = ("complete product: memoryview(obj) of every buffer-exporting class on freshly built objects - EncodedSequence "
              "(lengths %s x 3 arms), StripedSequence (same, no look-ahead rows yet), ScoringMatrix and ScoreDistribution "
-             "(widths %s; 0 = empty matrix where constructible), StripedScores (every length x width x 3 arms) - x DNA/protein; "
+             "(widths %s; 0 = empty ScoringMatrix; no distribution is requested from an empty matrix), StripedScores (every length x "
+             "width x 3 arms; cells of positions >= len stand for no logical element and only have to lie inside the object) - x DNA/protein; "
              "CountMatrix / WeightMatrix probed (no buffer support = nothing to check). One evaluation = one view: "
              "format/itemsize/ndim/shape/strides recorded and EVERY exposed cell compared with the logical element it stands "
              "for; cells whose offset lies outside the object's memory are counted, not read.")
@@ -526,10 +532,6 @@ REUSE_DESC = ("explicit-state BFS to fixpoint over reuse histories of ONE real S
 STALE_DESC = ("one history, meant to run under valgrind: v = memoryview(striped DNA sequence, L=100); "
               "pssm(width 40).calculate(striped) reallocates the rows; bytes(v) is then read through the exported pointer. "
               "Values cannot decide this clause (freed memory usually keeps its bytes); the memory monitor does.")
-
-
-def finish_object(rep, states, transitions):
-    rep.add_states(states, transitions)
 
 
 def space_index(ctx, rep):
@@ -606,6 +608,7 @@ def space_view_fresh(ctx, rep):
     nobuf = set()
     metas = {}
     nbytes_noted = set()
+    free_stats = [0, 0]
     for k, spec in enumerate(specs):
         if not ctx.mine(k):
             continue
@@ -621,6 +624,9 @@ def space_view_fresh(ctx, rep):
         else:
             rep.eval(bool(o.layouts and o.layouts[0][1]))
             rep.add_states(1, 1)
+        for x in m[1:]:
+            free_stats[0] += x["free"]
+            free_stats[1] += x["free_differ"]
         if m:
             meta = m[0]
             if spec["cls"] not in metas:
@@ -632,6 +638,10 @@ def space_view_fresh(ctx, rep):
                          % (spec["cls"], "-1" if meta["nbytes"] == -1 else "rows*columns", _brief(spec), meta))
             if spec.get("L") == 33 or spec.get("M") == 8:
                 rep.sample(dict(spec, kind="view", exposed=meta))
+    if free_stats[0]:
+        rep.note("StripedScores views expose %d cells for positions >= len (inherent to the (32, rows) shape; the statement defines "
+                 "no value for them, not checked); %d of them differ from the score of the wildcard-padded window"
+                 % (free_stats[0], free_stats[1]))
     for c in sorted(nobuf):
         rep.note("%s does not export the buffer protocol (memoryview raises TypeError): no view to check" % c)
     for c in sorted(metas):
@@ -662,7 +672,7 @@ def space_view_reuse(ctx, rep):
     rep.space("view_reuse", REUSE_DESC % (L_, [op[1] for op in ops if op[0] == "calc"]))
     cats = {}
     roots = [(protein, L, arm) for protein in (False, True) for L in L_ for arm in ARMS]
-    max_depth = 8
+    max_depth = 12
     for k, (protein, L, arm) in enumerate(roots):
         if not ctx.mine(k):
             continue
@@ -714,7 +724,13 @@ def stale_history(rep, spec):
     pssm = cached_pssm(M, protein)
     v = memoryview(striped)
     before = sum(bytes(v))
-    pssm.calculate(striped)
+    r = call(pssm.calculate, striped)
+    if r[0] == "exc":
+        if "Panic" in r[1]:
+            rep.violation("C18 StripedSequence reuse while a view is held %s" % r[1],
+                          "calculate(width %d) on a sequence with a live view raised %s(%s)" % (M, r[1], r[2][:120]), dict(spec))
+        else:
+            rep.note("stale_view: the library refuses the growing reuse while a view is held (%s: %s) - the view stays valid" % (r[1], r[2][:120]))
     checksum = sum(bytes(v))
     del v
     expected = sum(ranks) + (COLS * R - L) * (K - 1)
@@ -726,6 +742,7 @@ def space_stale(ctx, rep):
     rep.space("stale_view", STALE_DESC)
     spec = {"cls": "StripedSequence", "protein": False, "L": 100, "M": 40, "arm": None, "kind": "stale_view",
             "history": [["view"], ["calc", 40], ["read view"]]}
+    vxpy.crumb({"module": "C18", "case": spec})
     before, checksum, expected = stale_history(rep, spec)
     rep.eval(True)
     rep.add_states(3, 2, depth=2)
